@@ -158,6 +158,11 @@ REQUIRED_LABELS = {"selective-result": 0.5, "atom:link": 0.3, "atom:link!": 0.2,
                    "atom:prop": 0.5, "atom:sub": 0.3}
 
 
+def sample_view(case):
+    pages = "\n".join(f"--- {rel}\n{P.render(pg, case['today'])[0]}" for rel, pg in case["dir"].items())
+    return pages + "\nqueries:\n" + "\n".join("W " + Q.render_or(o) for o in case["queries"])
+
+
 def parts(tier):
     from ..engine import load_findings
 
